@@ -77,6 +77,8 @@ let eval (op : string) (args : sx list) : sx list =
   | "try_location", [s] -> sx_of_out (fun l -> [sx_of_loc l]) (try_location (bytes_of_sx s))
   | "as_modifier", [s] -> sx_of_out (fun m -> [sx_of_modifier m]) (as_modifier (bytes_of_sx s))
   | "mod_show", [m] -> [A "ok"; sx_of_bytes (mod_show (modifier_of_sx m))]
+  | "locate", [str; s] ->
+    sx_of_out (fun rr -> [L (List.map sx_of_region rr)]) (locate_string frag_ok frag_match (bytes_of_sx str) (seq_of_sx s))
   | "selector", [s; f] ->
     sx_of_out (fun p -> [sx_of_bool (feval frag_match p (feature_of_sx f))]) (selector frag_ok (bytes_of_sx s))
   | "shift_selector", [s] -> let (h, t) = shift_selector (bytes_of_sx s) false [] in [A "ok"; sx_of_bytes h; sx_of_bytes t]
